@@ -81,7 +81,21 @@ def main():
         sys.stdout.flush()
     print('%d seeded changes, %d not caught' % (len(dirs), missed))
     if args.readme:
-        write_readme(results, args)
+        # results of earlier runs are kept (seeded/results.json) and updated
+        # by this one, so that a run over some of the changes refreshes their
+        # rows only
+        store = os.path.join(HERE, 'seeded', 'results.json')
+        merged = {}
+        if os.path.exists(store):
+            with open(store) as fh:
+                merged = json.load(fh)
+        merged.update(results)
+        live = {os.path.basename(d) for d in glob.glob(
+            os.path.join(HERE, 'seeded', 'C*'))}
+        merged = {k: v for k, v in merged.items() if k in live}
+        with open(store, 'w') as fh:
+            json.dump(merged, fh, indent=1, sort_keys=True)
+        write_readme(merged, args)
     return 1 if missed else 0
 
 
@@ -97,8 +111,8 @@ def write_readme(results, args):
             m.get('needs_to_manifest', ''), (r['verdict'] + ': ' + keys)[:300]))
     caught = sum(1 for r in results.values() if r['verdict'] == 'CAUGHT')
     text = open(os.path.join(HERE, 'seeded', 'README.head.md')).read()
-    text += ('\nResult of the last full run (`tools/run_seeded.py --readme`, '
-             '%s tier, seed %d): %d of %d changes caught.\n\n'
+    text += ('\nResults of the last runs (`tools/run_seeded.py --demo --readme`, '
+             '%s tier, seed %d; kept in results.json): %d of %d changes caught.\n\n'
              '| change | property | round | needs, in order to manifest | '
              'verdict and check keys that fire |\n|---|---|---|---|---|\n'
              % (args.tier, args.seed, caught, len(results)))
